@@ -229,23 +229,44 @@ def rule_R3(ctx, prj):
     toks = {"left": AToken("Punctuation", "("), "right": AToken("Punctuation", ")"), "other": AToken("Name", "x")}
     bal = prj.func("codelimit.common.token_matching.predicate.Balanced:Balanced.accept")
     bad = []
-    for d in (0, 1, 2, 3):
+    names = pm.slot_names()
+    if names.count("depth") != 1 or any(not isinstance(v, bool) for v, nm in zip(pm.initial(), names) if nm != "depth"):
+        raise AnalysisError(f"{bal.disp}: the state read by accept()/is_open() is {names}; one integer `depth` (and flags) expected")
+    di = names.index("depth")
+    # the flag combinations that occur: states reachable from the initial one by left/right/other tokens, depth <= 3
+    reach, todo = {pm.initial()}, [pm.initial()]
+    while todo:
+        cur = todo.pop()
+        for tok in toks.values():
+            for acc, nst in pm.accept(cur, tok):
+                if acc and 0 <= nst[di] <= 3 and nst not in reach:
+                    reach.add(nst)
+                    todo.append(nst)
+    if {s_[di] for s_ in reach} != {0, 1, 2, 3}:
+        bad.append(f"depths reachable by parentheses and other tokens: {sorted({s_[di] for s_ in reach})} (0..3 expected)")
+    for state in sorted(reach):
+        d = state[di]
+        ftxt = "".join(f" {nm}={v}" for nm, v in zip(names, state) if nm != "depth")
         for tn, tok in toks.items():
-            (acc, (nd,)), = pm.accept((d,), tok)
+            outs = pm.accept(state, tok)
+            if len(outs) != 1:
+                raise AnalysisError(f"{bal.disp}: accept at depth {d} is not deterministic in the model")
+            (acc, nst), = outs
+            nd = nst[di]
             if d == 0:
                 want = {"left": (True, 1), "right": (False, None), "other": (False, 0)}[tn]
             else:
                 want = (True, {"left": d + 1, "right": d - 1, "other": d}[tn])
             ok = acc == want[0] and (want[1] is None or nd == want[1])
             if ok:
-                ctx.ok("R3", bal.site(), f"Balanced depth={d} token={tn}: accept={acc} depth'={nd}")
+                ctx.ok("R3", bal.site(), f"Balanced depth={d}{ftxt} token={tn}: accept={acc} depth'={nd}")
             else:
-                bad.append(f"depth={d} token={tn}: accept={acc}, depth'={nd}; required accept={want[0]}"
+                bad.append(f"depth={d}{ftxt} token={tn}: accept={acc}, depth'={nd}; required accept={want[0]}"
                            + (f", depth'={want[1]}" if want[1] is not None else ""))
                 ctx.bad_instance("R3", bal.site(), bad[-1])
-        op = pm.is_open((d,))
+        op = pm.is_open(state)
         if op is not None and op != (d > 0):
-            bad.append(f"is_open at depth {d} is {op}")
+            bad.append(f"is_open at depth {d}{ftxt} is {op}")
     if bad:
         ctx.viol("R3", "Balanced.accept/table", bal.site(), "; ".join(bad))
 
